@@ -1182,20 +1182,24 @@ def prog_key(pr):
 
 
 # ------------------------------------------------------------------------------------------------ running a chunk of programs (one worker)
-WITNESSES = [   # DESIGN section 8 row 2 and the shapes found while building this check; replayed first on every run
-    ('cond', ('eq', ('a', 'a'), ('and', ('a', 'b'), ('a', 'c')))),
-    ('cond', ('and', ('a', 'a'), ('ife', ('a', 'c'), ('a', 'b'), ('a', 'd')))),
-    ('cond', ('call1', ('and', ('a', 'a'), ('a', 'b')))),
-    ('cond', ('add', ('and', ('a', 'a'), ('a', 'b')), ('a', 'c'))),
-    ('cond', ('or', ('ife', ('a', 'a'), ('a', 'b'), ('a', 'c')), ('a', 'd'))),
-    ('elt', ('and', ('a', 'a'), ('ife', ('a', 'c'), ('a', 'b'), ('a', 'd')))),
+WITNESSES = [   # the four known findings (known_findings.json): replayed on every run
     ('elt', ('ife', ('or', ('a', 'a'), ('not', ('a', 'b'))), ('a', 'c'), ('a', 'd'))),
     ('elt', ('ife', ('or', ('not', ('a', 'a')), ('a', 'b')), ('a', 'c'), ('a', 'd'))),
     ('elt', ('ife', ('and', ('not', ('a', 'a')), ('a', 'b')), ('a', 'c'), ('a', 'd'))),
     ('elt', ('ife', ('not', ('or', ('a', 'a'), ('a', 'b'))), ('a', 'c'), ('a', 'd'))),
-    ('cond', ('not', ('and', ('ife', ('a', 'a'), ('a', 'b'), ('a', 'c')), ('a', 'd')))),
-    ('cond', ('ife', ('a', 'a'), ('a', 'b'), ('ife', ('a', 'c'), ('a', 'd'), ('a', 'e')))),
 ]
+CORPUS = os.path.join(os.path.dirname(os.path.dirname(os.path.abspath(__file__))), 'corpus', 'C03')
+
+
+def load_corpus():
+    """minimised past failures (DESIGN section 8 row 2, repaired by /repo 08d1b21): run first on every run; a failure here is a regression"""
+    out = []
+    if os.path.isdir(CORPUS):
+        for f in sorted(os.listdir(CORPUS)):
+            if f.endswith('.json'):
+                try: out.append(json.load(open(os.path.join(CORPUS, f))))
+                except Exception: pass
+    return out
 
 
 def call_driver(cmd, cwd, requests):
@@ -1322,6 +1326,16 @@ def run(ctx):
     from framework import LEAN
     if not ctx.driver.ok: ctx.note('driver unavailable: `check` not asked; the property oracle (original vs decompiled code executed) still runs')
     interpreted = bool(cmd) and cmd[0] == 'lake'
+    import time
+    t_engine = time.time()
+    # corpus first: the shapes the decompiler got wrong before the repair must now be proved equal (or at least agree on every path)
+    corpus = load_corpus()
+    if corpus:
+        res = run_chunk((cmd, LEAN, [c['src'] for c in corpus]))
+        bykey = {c['src']: c['key'] for c in corpus}
+        for v in res['violations']: v['key'] = 'regression:' + bykey.get(v['src'], v['src'])
+        res['counts'] = {('corpus:' + k if k.startswith('status:') else k): v for k, v in res['counts'].items()}
+        n = report(ctx, [res]); ctx.count('corpus-programs', n)
     programs = [prog_of(kind, e) for kind, e in WITNESSES]
     # exhaustive part: every expression of the grammar up to size k, atoms up to renaming, in three positions
     full_k = ctx.scale(4, 5); cf_k = ctx.scale(6, 7)
@@ -1350,7 +1364,8 @@ def run(ctx):
     procs = 4 if interpreted else 16
     with multiprocessing.Pool(procs) as pool:
         results = pool.map(run_chunk, work, chunksize=1)
-    total = report(ctx, results)
+    total = report(ctx, results) + len(corpus)
+    ctx.extra['engine_s'] = round(time.time() - t_engine, 1)
     ctx.driver.calls += total
     ctx.evaluations = total      # every program is one evaluation (samples registered above)
     ctx.count('programs', total)
